@@ -10,8 +10,8 @@ Local Open Scope Z_scope.
 Definition Arg : Type := (Z * Z * Z * Z)%type.   (* the remaining size_t arguments of AddCrt / Remove: arbitrary *)
 
 (* ------------------------------------------------------------------ Open2N2<3> *)
-Definition o2_step n h := step n Gen_Open2N2.GetNextBucketIndex 3 h BucketOps.O2.st BucketOps.O2.updP Arg BucketOps.O2.addP BucketOps.O2.remP.
-Definition o2_add n h := add n Gen_Open2N2.GetNextBucketIndex 3 h BucketOps.O2.st BucketOps.O2.updP Arg BucketOps.O2.addP.
+Definition o2_step n h := step n Gen_Open2N2.GetNextBucketIndex h BucketOps.O2.st BucketOps.O2.updP Arg BucketOps.O2.addP BucketOps.O2.remP BucketOps.O2.full.
+Definition o2_add n h := add n Gen_Open2N2.GetNextBucketIndex h BucketOps.O2.st BucketOps.O2.updP Arg BucketOps.O2.addP BucketOps.O2.full.
 Definition o2_find n h := find n Gen_Open2N2.GetNextBucketIndex h BucketOps.O2.st BucketOps.O2.dec.
 Definition o2_empty : table BucketOps.O2.st := {| bk := fun _ => []; bd := fun _ => BucketOps.O2.empty |}.
 
@@ -23,6 +23,10 @@ Lemma o2_rem_spec a b b' : BucketOps.O2.good b -> 0 < BucketOps.O2.cnt b <= Z.of
   BucketOps.O2.good b' /\ BucketOps.O2.dec b' = BucketOps.O2.dec b /\ BucketOps.O2.cnt b' = BucketOps.O2.cnt b - 1.
 Proof. intros Hg Hc. apply BucketOps.O2.rem_spec; [exact Hg|lia]. Qed.
 
+Lemma o2_full_spec b : BucketOps.O2.good b -> 0 <= BucketOps.O2.cnt b <= Z.of_nat 3 ->
+  (BucketOps.O2.full b = true <-> BucketOps.O2.cnt b = Z.of_nat 3).
+Proof. intros Hg Hc. apply BucketOps.O2.full_iff; [exact Hg|lia]. Qed.
+
 (* Open2N2: every reachable table finds every present key; "full" only when all buckets are full *)
 Theorem open2n2_present_key_found n h ops b k :
   0 <= n <= 63 -> (forall k, 0 <= h k < 2 ^ n) ->
@@ -32,7 +36,7 @@ Proof.
   intros Hn Hh. unfold o2_step, o2_find, o2_empty.
   apply (present_key_found_all_histories n Hn Gen_Open2N2.GetNextBucketIndex 3%nat h BucketOps.O2.st
     BucketOps.O2.good BucketOps.O2.dec BucketOps.O2.updP (BucketOps.O2.upd_good n Hn) (BucketOps.O2.upd_covers n Hn)
-    (BucketOps.O2.upd_keeps n Hn) Arg BucketOps.O2.cnt BucketOps.O2.addP BucketOps.O2.remP
+    (BucketOps.O2.upd_keeps n Hn) Arg BucketOps.O2.cnt BucketOps.O2.addP BucketOps.O2.remP BucketOps.O2.full o2_full_spec
     (BucketOps.O2.upd_cnt n Hn) o2_add_spec o2_rem_spec);
     apply BucketOps.O2.empty_good.
 Qed.
@@ -45,26 +49,31 @@ Proof.
   intros Hn Hh. unfold o2_step, o2_empty.
   apply (count_exact_all_histories n Hn Gen_Open2N2.GetNextBucketIndex 3%nat h BucketOps.O2.st
     BucketOps.O2.good BucketOps.O2.dec BucketOps.O2.updP (BucketOps.O2.upd_good n Hn) (BucketOps.O2.upd_covers n Hn)
-    (BucketOps.O2.upd_keeps n Hn) Arg BucketOps.O2.cnt BucketOps.O2.addP BucketOps.O2.remP
+    (BucketOps.O2.upd_keeps n Hn) Arg BucketOps.O2.cnt BucketOps.O2.addP BucketOps.O2.remP BucketOps.O2.full o2_full_spec
     (BucketOps.O2.upd_cnt n Hn) o2_add_spec o2_rem_spec);
     apply BucketOps.O2.empty_good.
 Qed.
 
-Theorem open2n2_full_only_if_all_full n h (s : table BucketOps.O2.st) k a :
+Theorem open2n2_full_only_if_all_full n h ops k a :
   0 <= n <= 63 -> (forall k, 0 <= h k < 2 ^ n) ->
+  let s := fold_left (o2_step n h) ops o2_empty in
   o2_add n h s k a = None ->
   forall b, 0 <= b < 2 ^ n -> (3 <= length (bk _ s b))%nat.
 Proof.
-  intros Hn Hh. unfold o2_add.
-  apply (add_fails_only_if_all_full n Hn Gen_Open2N2.GetNextBucketIndex (open2n2_next_spec n Hn) 3%nat h Hh).
+  intros Hn Hh. unfold o2_step, o2_add, o2_empty.
+  apply (full_only_if_all_full_all_histories n Hn Gen_Open2N2.GetNextBucketIndex (open2n2_next_spec n Hn) 3%nat h Hh BucketOps.O2.st
+    BucketOps.O2.good BucketOps.O2.dec BucketOps.O2.updP (BucketOps.O2.upd_good n Hn) (BucketOps.O2.upd_covers n Hn)
+    (BucketOps.O2.upd_keeps n Hn) Arg BucketOps.O2.cnt BucketOps.O2.addP BucketOps.O2.remP BucketOps.O2.full o2_full_spec
+    (BucketOps.O2.upd_cnt n Hn) o2_add_spec o2_rem_spec);
+    apply BucketOps.O2.empty_good.
 Qed.
 
 (* ------------------------------------------------------------------ OpenN1<maxCount> / Open8 (maxCount = 7) *)
 Definition updN (mc : Z) (s : Z -> Z) (p : Z) : Z -> Z :=
   match Gen_OpenN1.UpdateMaxProbe mc s p with Ok (_, s') => s' | _ => s end.
 Definition n1_dec mc n := fun st => Gen_OpenN1.GetMaxProbe mc st n.
-Definition n1_step rv mc n h := step n Gen_Open8.GetNextBucketIndex (Z.to_nat mc) h (Z -> Z) (updN mc) Arg (BucketOps.N1.addP rv mc) (BucketOps.N1.remP rv mc).
-Definition n1_add rv mc n h := add n Gen_Open8.GetNextBucketIndex (Z.to_nat mc) h (Z -> Z) (updN mc) Arg (BucketOps.N1.addP rv mc).
+Definition n1_step rv mc n h := step n Gen_Open8.GetNextBucketIndex h (Z -> Z) (updN mc) Arg (BucketOps.N1.addP rv mc) (BucketOps.N1.remP rv mc) (Gen_OpenN1_ops.IsFull rv mc).
+Definition n1_add rv mc n h := add n Gen_Open8.GetNextBucketIndex h (Z -> Z) (updN mc) Arg (BucketOps.N1.addP rv mc) (Gen_OpenN1_ops.IsFull rv mc).
 Definition n1_find mc n h := find n Gen_Open8.GetNextBucketIndex h (Z -> Z) (n1_dec mc n).
 Definition n1_empty mc : table (Z -> Z) := {| bk := fun _ => []; bd := fun _ => Gen_OpenN1_ops.pvSetEmpty mc (fun _ => 0) |}.
 
@@ -90,6 +99,9 @@ Lemma updN_keeps b p q : BucketOps.N1.good rv mc b -> 0 <= p < 2 ^ n -> q < 2 ^ 
 Proof. intros Hb Hp Hq Hqb. destruct (updN_all b p Hb Hp) as (_ & _ & Hk & _). apply Hk; assumption. Qed.
 Lemma updN_cnt b p : BucketOps.N1.good rv mc b -> 0 <= p < 2 ^ n -> BucketOps.N1.cnt rv mc (updN mc b p) = BucketOps.N1.cnt rv mc b.
 Proof. intros Hb Hp. destruct (updN_all b p Hb Hp) as (_ & _ & _ & H). exact H. Qed.
+Lemma n1_full_spec b : BucketOps.N1.good rv mc b -> 0 <= BucketOps.N1.cnt rv mc b <= Z.of_nat (Z.to_nat mc) ->
+  (Gen_OpenN1_ops.IsFull rv mc b = true <-> BucketOps.N1.cnt rv mc b = Z.of_nat (Z.to_nat mc)).
+Proof. intros Hg _. rewrite Z2Nat.id by lia. apply (BucketOps.N1.full_iff rv mc Hmc b Hg). Qed.
 Lemma n1_add_spec a b : BucketOps.N1.good rv mc b -> 0 <= BucketOps.N1.cnt rv mc b < Z.of_nat (Z.to_nat mc) ->
   BucketOps.N1.good rv mc (BucketOps.N1.addP rv mc a b) /\ n1_dec mc n (BucketOps.N1.addP rv mc a b) = n1_dec mc n b /\
   BucketOps.N1.cnt rv mc (BucketOps.N1.addP rv mc a b) = BucketOps.N1.cnt rv mc b + 1.
@@ -114,7 +126,7 @@ Proof.
   intros Hmc Hn Hh. unfold n1_step, n1_find, n1_empty.
   apply (present_key_found_all_histories n Hn Gen_Open8.GetNextBucketIndex (Z.to_nat mc) h (Z -> Z)
     (BucketOps.N1.good rv mc) (n1_dec mc n) (updN mc) (updN_good rv mc n Hmc Hn) (updN_covers rv mc n Hmc Hn) (updN_keeps rv mc n Hmc Hn)
-    Arg (BucketOps.N1.cnt rv mc) (BucketOps.N1.addP rv mc) (BucketOps.N1.remP rv mc)
+    Arg (BucketOps.N1.cnt rv mc) (BucketOps.N1.addP rv mc) (BucketOps.N1.remP rv mc) (Gen_OpenN1_ops.IsFull rv mc) (n1_full_spec rv mc Hmc)
     (updN_cnt rv mc n Hmc Hn) (n1_add_spec rv mc n Hmc) (n1_rem_spec rv mc n Hmc));
     apply (BucketOps.N1.empty_good rv mc Hmc).
 Qed.
@@ -127,18 +139,23 @@ Proof.
   intros Hmc Hn Hh. unfold n1_step, n1_empty.
   apply (count_exact_all_histories n Hn Gen_Open8.GetNextBucketIndex (Z.to_nat mc) h (Z -> Z)
     (BucketOps.N1.good rv mc) (n1_dec mc n) (updN mc) (updN_good rv mc n Hmc Hn) (updN_covers rv mc n Hmc Hn) (updN_keeps rv mc n Hmc Hn)
-    Arg (BucketOps.N1.cnt rv mc) (BucketOps.N1.addP rv mc) (BucketOps.N1.remP rv mc)
+    Arg (BucketOps.N1.cnt rv mc) (BucketOps.N1.addP rv mc) (BucketOps.N1.remP rv mc) (Gen_OpenN1_ops.IsFull rv mc) (n1_full_spec rv mc Hmc)
     (updN_cnt rv mc n Hmc Hn) (n1_add_spec rv mc n Hmc) (n1_rem_spec rv mc n Hmc));
     apply (BucketOps.N1.empty_good rv mc Hmc).
 Qed.
 
-Theorem open8_full_only_if_all_full rv mc n h (s : table (Z -> Z)) k a :
-  0 <= n <= 63 -> (forall k, 0 <= h k < 2 ^ n) ->
+Theorem open8_full_only_if_all_full rv mc n h ops k a :
+  1 <= mc <= 7 -> 0 <= n <= 63 -> (forall k, 0 <= h k < 2 ^ n) ->
+  let s := fold_left (n1_step rv mc n h) ops (n1_empty mc) in
   n1_add rv mc n h s k a = None ->
   forall b, 0 <= b < 2 ^ n -> (Z.to_nat mc <= length (bk _ s b))%nat.
 Proof.
-  intros Hn Hh. unfold n1_add.
-  apply (add_fails_only_if_all_full n Hn Gen_Open8.GetNextBucketIndex (open8_next_spec n Hn) (Z.to_nat mc) h Hh).
+  intros Hmc Hn Hh. unfold n1_step, n1_add, n1_empty.
+  apply (full_only_if_all_full_all_histories n Hn Gen_Open8.GetNextBucketIndex (open8_next_spec n Hn) (Z.to_nat mc) h Hh (Z -> Z)
+    (BucketOps.N1.good rv mc) (n1_dec mc n) (updN mc) (updN_good rv mc n Hmc Hn) (updN_covers rv mc n Hmc Hn) (updN_keeps rv mc n Hmc Hn)
+    Arg (BucketOps.N1.cnt rv mc) (BucketOps.N1.addP rv mc) (BucketOps.N1.remP rv mc) (Gen_OpenN1_ops.IsFull rv mc) (n1_full_spec rv mc Hmc)
+    (updN_cnt rv mc n Hmc Hn) (n1_add_spec rv mc n Hmc) (n1_rem_spec rv mc n Hmc));
+    apply (BucketOps.N1.empty_good rv mc Hmc).
 Qed.
 
 (* non-vacuity: a 4-bucket Open2N2<3> table, constant hash: twelve keys fill it, the thirteenth add fails,
